@@ -1,5 +1,4 @@
 import AutoVerif.Spec.C01
-import AutoVerif.Gen.Consts
 /-
 C01 — Only results vouched identically by f+1 oracles become agreed performables.
 
@@ -333,26 +332,6 @@ theorem new_tally_separates_distinct_results :
     let b := wres "aa" 0xbb 0xcc09dd
     ([a, b].foldl (addResult ctx) []).map (fun s => (s.key, s.result, s.count)) = [("same", a, 1), ("same+", b, 1)] := by
   decide
-
-/-! ### tie to the source: decision expressions regenerated by the extractor (`Gen.Src`) -/
-
-/-- one step of the model's traversal decides with exactly the condition of the `if` in `performables.set` -/
-theorem select_step_matches_source (thr : Nat) (t : List Slot) (k : String) (ks : List String) (acc : List CheckResult)
-    (s : Slot) (h : lookup t k = some s) :
-    select thr t (k :: ks) acc =
-      if Gen.Src.performableSelected s.count thr ((acc.map (·.workID)).contains s.result.workID)
-      then select thr t ks (acc ++ [s.result]) else select thr t ks acc := by
-  conv => lhs; unfold select
-  simp only [h]
-  rfl
-
-/-- the truncation of the model (`take`) is the source's `if len(performable) > p.limit { performable[:p.limit] }` -/
-theorem truncation_matches_source (l : List CheckResult) (limit : Nat) :
-    (if Gen.Src.performableOverLimit l.length limit then l.take limit else l) = l.take limit := by
-  simp only [Gen.Src.performableOverLimit, decide_eq_true_eq]
-  split
-  · rfl
-  · rename_i h; exact (List.take_of_length_le (by omega)).symm
 
 /-! ### non-vacuity -/
 
